@@ -237,6 +237,10 @@ func vGo(f func()) {
 
 func vJoin() { vWG.Wait() }
 
+// vSchedBound(n): the executor explores only schedules with at most n preemptive switches of the
+// goroutines registered afterwards (n < 0: all schedules). Natively it does nothing.
+func vSchedBound(n int) {}
+
 // vNativeStress does nothing under the executor. Natively (replay of a race or of an
 // interleaving-dependent result) it hammers the given checks from many goroutines so that a real
 // interference has a chance to show: each f reports whether its call still returns its solo result.
